@@ -234,6 +234,8 @@ func evalRender(c *core.Ctx, cs *core.Case) {
 }
 
 func c11Body(c *core.Ctx) {
+	// Content()/Metadata() must also be right for a call that follows other (accepted or refused) calls
+	defer seqPairs(c, "c39", "c93", "c128", "ean", "codabar", "tof")
 	T := c.Thorough()
 	run := func(fam int, s []byte, p ...int) {
 		Run(c, &core.Case{Fam: "render", S: s, P: append([]int{fam}, p...)})
